@@ -288,9 +288,9 @@ AckRec(j) ==
   IF ack[j].n > 0 THEN [ack[j] EXCEPT !.n = 2]
   ELSE [n |-> 1, req |-> 1, at |-> 0, wasStarted |-> job[j].started, wasFinished |-> job[j].completed \/ job[j].canceled,
         okAtAck |-> [t \in Tasks(j) |-> runs[j][t].begun > 0 /\ t \notin running[j] /\
-                       (runs[j][t].outcome = "ok" \/ (runs[j][t].outcome = "fail" /\ Ver(j).tasks[t].allow))],
+                       (runs[j][t].outcome = "ok" \/ (runs[j][t].outcome \in {"fail", "err"} /\ Ver(j).tasks[t].allow))],
         openAtAck |-> [t \in Tasks(j) |-> t \in running[j]],
-        failedAtAck |-> \E t \in Tasks(j) : runs[j][t].outcome = "fail" /\ ~Ver(j).tasks[t].allow,
+        failedAtAck |-> \E t \in Tasks(j) : runs[j][t].outcome = "err" \/ (runs[j][t].outcome = "fail" /\ ~Ver(j).tasks[t].allow),
         stopBefore |-> stop[j].n > 0]
 
 Cancel(j) ==
@@ -420,15 +420,18 @@ Finish(j, t, o) ==
   /\ j \in Jobs /\ t \in running[j]
   /\ running' = [running EXCEPT ![j] = @ \ {t}]
   /\ LET allow == Ver(j).tasks[t].allow
-         hardFail == o = "fail" /\ ~allow
+         \* "fail": the command exits with a non-zero status; "err": Run returns another error (not an exit status), which
+         \* marks the task errored even if it is allow_failure
+         errored == (o = "fail" /\ ~allow) \/ o = "err"
+         hardFail == o \in {"fail", "err"} /\ ~allow          \* the stage ends in Error and sets the scheduler's last error
          p == job[j].p
          \* HandleTaskChange: only if the job is still known to the runner
-         failFast == hardFail /\ job[j].present /\ Def(p) /\ ~CurDef(p).cont
+         failFast == errored /\ job[j].present /\ Def(p) /\ ~CurDef(p).cont
          doCancel == failFast /\ ~job[j].canceled /\ ~job[j].completed
      IN /\ stage' = [stage EXCEPT ![j][t] = IF hardFail THEN "error" ELSE "done"]
         /\ job' = IF job[j].present
                   THEN [job EXCEPT ![j].rep[t] = [status |-> IF @.canceled THEN "canceled" ELSE IF hardFail THEN "error" ELSE "done",
-                                                   errored |-> hardFail, canceled |-> @.canceled],
+                                                   errored |-> errored, canceled |-> @.canceled],
                                     ![j].creq = @ \/ doCancel]
                   ELSE job
         /\ sched' = [sched EXCEPT ![j].lastErr = IF hardFail THEN "exit" ELSE @]
@@ -652,7 +655,7 @@ Internal == \/ \E j \in Jobs : FirstStep(j) \/ CancelDeliver(j) \/ JobComplete(j
 Client == \/ \E p \in P : \E b \in BadKinds : Schedule(p, b)
           \/ \E j \in 1 .. Len(job) + 1 : Cancel(j)
           \/ \E j \in Jobs : Poll(j)
-          \/ \E j \in Jobs : \E t \in running[j] : \E o \in {"ok", "fail"} : Finish(j, t, o)
+          \/ \E j \in Jobs : \E t \in running[j] : \E o \in {"ok", "fail", "err"} : Finish(j, t, o)
           \/ Tick
           \/ \E p \in P : \E v \in 0 .. Len(VerTable) : Reload(p, v)
           \/ Save \/ ShutdownBegin \/ ShutdownForce \/ LongAdv \/ Restart
